@@ -255,7 +255,8 @@ pub fn arb_stage() -> impl Strategy<Value = Stage> {
 
 pub fn arb_mig_spec() -> impl Strategy<Value = MigSpec> {
     (
-        (0u8..3, arb_stage(), prop::bool::weighted(0.15), prop::bool::weighted(0.7)),
+        // (the selector indexes the accounts ordered by their Orchard holdings: mostly the richest one)
+        (prop_oneof![4 => Just(0u8), 1 => Just(1u8), 1 => Just(2u8)], arb_stage(), prop::bool::weighted(0.15), prop::bool::weighted(0.7)),
         prop_oneof![3 => Just(144u32), 3 => select(vec![1u32, 2, 3, 5, 12, 36]), 1 => 1u32..=300],
         select(vec![0u8, 10, 20, 20, 50, 100]),
         pvec(pvec(arb_txgen(), 1..=2), 0..=2),
